@@ -253,3 +253,82 @@ func borrow(rep *core.Report, from *core.Report, newRule string, rulePrefixes ..
 	}
 	return n
 }
+
+// coreCallOf finds the call through which an API wrapper reaches the compute core: directly, or by
+// delegating to another method of the same map (Store -> LoadAndStore). The returned call is the one
+// into the core; via lists the delegation chain.
+func coreCallOf(mm *core.MapModel, w *ssa.Function, depth int) (ssa.CallInstruction, *ssa.Function) {
+	if w == nil || depth > 3 {
+		return nil, nil
+	}
+	var direct ssa.CallInstruction
+	var next *ssa.Function
+	core.Instrs(w, func(in ssa.Instruction) {
+		c, ok := in.(ssa.CallInstruction)
+		if !ok {
+			return
+		}
+		cal := core.Callee(c)
+		if cal == nil {
+			return
+		}
+		if cal == mm.Core {
+			direct = c
+			return
+		}
+		if cal != w && cal.Signature.Recv() != nil && core.NamedOf(cal.Signature.Recv().Type()) == mm.Name {
+			for _, m := range mm.Methods {
+				if m == cal {
+					next = cal
+				}
+			}
+		}
+	})
+	if direct != nil {
+		return direct, w
+	}
+	if next != nil {
+		return coreCallOf(mm, next, depth+1)
+	}
+	return nil, nil
+}
+
+// funcOfValue resolves a function-typed argument to the function literal it denotes: a closure, a plain
+// function value, or the result of a small closure factory (a helper whose every return is one closure).
+func funcOfValue(v ssa.Value, depth int) (*ssa.Function, *ssa.MakeClosure) {
+	if depth > 3 {
+		return nil, nil
+	}
+	switch x := core.StripConv(v).(type) {
+	case *ssa.MakeClosure:
+		return x.Fn.(*ssa.Function), x
+	case *ssa.Function:
+		if o := x.Origin(); o != nil {
+			return o, nil
+		}
+		return x, nil
+	case *ssa.Call:
+		cal := core.Callee(x)
+		if cal == nil || cal.Blocks == nil {
+			return nil, nil
+		}
+		var res *ssa.Function
+		var mc *ssa.MakeClosure
+		n := 0
+		core.Instrs(cal, func(in ssa.Instruction) {
+			if ret, ok := in.(*ssa.Return); ok && len(ret.Results) == 1 {
+				n++
+				f, m := funcOfValue(ret.Results[0], depth+1)
+				if f != nil && (res == nil || res == f) {
+					res, mc = f, m
+				} else {
+					res = nil
+				}
+			}
+		})
+		if n >= 1 {
+			return res, mc
+		}
+	}
+	return nil, nil
+}
